@@ -142,6 +142,9 @@ func (e *Engine) bindContract(c *Contract) error {
 		c.Trusted = true
 		fn, err := e.lookupExternal(name)
 		if err != nil {
+			if strings.Contains(err.Error(), "package not loaded") {
+				return nil // not reachable from the packages under verification
+			}
 			return fail("%v", err)
 		}
 		e.cons[fn] = c
